@@ -65,7 +65,28 @@ def _has_symkey(d):
     return any(isinstance(kk, SymKey) for kk in d.keys())
 
 
+def _conc_tuple_key(k):
+    """a tuple used as a dict key: symbolic booleans / integers / forced strings inside are concretised (forking)"""
+    if type(k) is tuple and any(is_symv(e) for e in k):
+        out = []
+        for e in k:
+            if isinstance(e, SymBool):
+                out.append(bool(e))
+            elif isinstance(e, SymInt):
+                out.append(e.__index__())
+            elif isinstance(e, SymStr):
+                if not e.is_concrete():
+                    raise core.EngineUnsupported("symbolic string inside a tuple dict key")
+                out.append(str(mkstr(e)))
+            else:
+                out.append(e)
+        return tuple(out)
+    return k
+
+
 def symget(o, k):
+    if type(k) is tuple and isinstance(o, dict):
+        k = _conc_tuple_key(k)
     if isinstance(k, SymStr):
         if type(o) in DICTS or isinstance(o, dict) and type(o).__getitem__ is dict.__getitem__:
             f, v = _dict_lookup(o, k)
@@ -96,6 +117,8 @@ def symget(o, k):
 
 
 def symset(o, k, v):
+    if type(k) is tuple and isinstance(o, dict):
+        k = _conc_tuple_key(k)
     if type(o) in DICTS:
         if isinstance(k, SymStr):
             for kk in list(o.keys()):
@@ -153,6 +176,7 @@ def _symin(x, c):
             return SymStr.lift(c).contains(x) if x.is_concrete() else _sym_in_str(x, c)
         return x in c
     if type(c) in DICTS or isinstance(c, (set, frozenset, type({}.keys()))):
+        x = _conc_tuple_key(x)
         if isinstance(x, SymStr) or (type(c) in DICTS and _has_symkey(c)):
             keys = list(c.keys()) if hasattr(c, "keys") else list(c)
             return mkbool(z.Or([B(_keys_eq(x, kk)) for kk in keys]))
